@@ -225,6 +225,22 @@ def unit_anysize(model, n, gamma_mode):
     return anysize.c06(model, n, gamma_mode)
 
 
+def unit_gauss_contracts():
+    """premises of this property's proofs: the contract clauses of w and wt that the obligations above
+    assume are verified on the real bodies (the C17 units, re-run here under this property's name, so
+    that a change inside a callee that breaks a clause this property relies on is reported here too)"""
+    from . import c17
+    out = []
+    for u in ('unit_w', 'unit_wt'):
+        for r in getattr(c17, u)():
+            if r["kind"] == "canary" or not any(k in r["name"] for k in ('/w/range', '/wt/range')):
+                continue          # only the clauses this property's proofs rely on
+            r = dict(r)
+            r["name"] = r["name"].replace("C17/", "C06/helper/")
+            out.append(r)
+    return out
+
+
 def units(tier):
     us = [("unit_lemmas", ())]
     nmax = 4 if tier == "quick" else 8
@@ -246,6 +262,7 @@ def units(tier):
             for limit in (False, True):
                 us.append(("unit_rate", (m, (1, 1) if tier == "quick" else (2, 1), vec, limit, True)))
     us.sort(key=lambda u: (-(sum(u[1][1]) * 2 ** len(u[1][1])) if u[0] not in ("unit_lemmas", "unit_anysize") else (-(2 ** u[1][1]) if u[0] == "unit_anysize" else 0)))
+    us.insert(0, ("unit_gauss_contracts", ()))
     return us
 
 
@@ -268,5 +285,5 @@ def main(tier, seed):
         explanation=("Per shape and tie pattern the sigma returned by the real _compute is reduced to its exact normal form sigma_in*sqrt(max(a,b)); b = kappa, 1 - a = the variance step, which is proved >= 0 term-wise after raising to common denominators (w, wt, gamma >= 0 from contracts), so 0 < Y <= 1; "
                      "the same is proved for the sigma returned by the real rate() on every path of the sort for symbolic rank values and per-call tau, with sigma_in = sqrt(prior^2+tau^2), and with limit_sigma the result is the prior itself or satisfies the path condition sigma <= prior. "
                      "Shape-independent lemmas by z3 give 0 < sigma*sqrt(Y) <= sigma, prior <= sqrt(prior^2+tau^2) and the inductive history step."),
-        shapes=sorted({(str(u[1][1]) if u[0] != "unit_anysize" else f"n={u[1][1]}, every team size") for u in units(tier) if u[0] != "unit_lemmas"}),
+        shapes=sorted({(str(u[1][1]) if u[0] != "unit_anysize" else f"n={u[1][1]}, every team size") for u in units(tier) if len(u[1]) > 1}),
     )
